@@ -71,6 +71,14 @@ IndInv == /\ TypeOK /\ LastIsLevel /\ EmptyHist /\ Counted /\ InFlight /\ PcMicr
 IndInit == /\ \E c \in BOOLEAN : \E i \in Int : \E l \in Int : \E x \in Int :
                 ret = [converged |-> c, iterations |-> i, last |-> l, xlvl |-> x]
            /\ IndInv
+(* negative model: the history records the proxy of the iterate BEFORE the update (seeds C13b, C13o are of this kind:     *)
+(* the recorded number is not the residual of the returned iterate).  With this action the induction must FAIL.            *)
+UpdateStale == /\ pc = "update"
+               /\ \E nl \in Nat : \E ol \in Nat : nl <= levels /\ ol <= levels /\ nl # ol /\ lvl' = nl /\ hlast' = ol
+               /\ hlen' = hlen + 1 /\ k' = k + 1
+               /\ pc' = IF hlast' = 0 THEN "return" ELSE "draw"
+               /\ UNCHANGED <<maxIter, levels, nskip, micro, ret>>
+NextStale == Next \/ UpdateStale
 (* vacuity probes: each must be violated                                                                              *)
 NotLateConverged == ~(Done /\ ret.converged /\ ret.iterations >= 1000 /\ nskip >= 10)
 NotBudgetDone == ~(Done /\ ~ret.converged /\ k >= 1000 /\ ret.last >= 5)
